@@ -124,28 +124,34 @@ def _c17_parts(case):
     return no_intra, cross, ev_iface, len(times) > 1
 
 
+def _c17_pinned(detail):
+    """the failing outcome is exactly what the frozen copy of the pinned interface algorithm (harness/pinned) produces on the same
+    model, query and evidence — computed by the stream"""
+    return isinstance(detail, dict) and detail.get("same_as_pinned") is True
+
+
 def c17_cross_slice_edge(stream, case, detail):
     """inter-slice edge between two different variables (X_t -> Y_t+1): the interface algorithm equates 'has a child in the
     next slice' with 'has a parent in the previous slice'; raises or returns wrong numbers"""
-    return stream == "query" and _c17_parts(case)[1]
+    return stream == "query" and _c17_parts(case)[1] and _c17_pinned(detail)
 
 
 def c17_no_intra_edge(stream, case, detail):
     """a slice variable without intra-slice edge: the start / 1.5-slice clique trees are disconnected.
     (The constructor itself was repaired: 'CPD defined on variable not in the model' is NOT this finding.)"""
-    if isinstance(detail, str) and "CPD defined on variable not in the model" in detail:
+    if "CPD defined on variable not in the model" in (detail.get("msg", "") if isinstance(detail, dict) else str(detail)):
         return False
-    return stream == "query" and _c17_parts(case)[0]
+    return stream == "query" and _c17_parts(case)[0] and _c17_pinned(detail)
 
 
 def c17_evidence_on_interface(stream, case, detail):
     """evidence on a variable that has an outgoing inter-slice edge (an interface variable)"""
-    return stream == "query" and _c17_parts(case)[2]
+    return stream == "query" and _c17_parts(case)[2] and _c17_pinned(detail)
 
 
 def c17_multi_slice_query(stream, case, detail):
     """query variables in two or more different time slices (filtering and smoothing)"""
-    return stream == "query" and _c17_parts(case)[3]
+    return stream == "query" and _c17_parts(case)[3] and _c17_pinned(detail)
 
 
 # ----------------------------------------------------------------------------- C19
